@@ -19,6 +19,7 @@ VERIF = os.path.dirname(os.path.dirname(os.path.abspath(__file__)))
 REPO = os.path.abspath(os.environ.get("TBF_REPO", "/repo"))
 SRC = os.path.join(REPO, "src")
 BUILD = os.path.join(VERIF, "build")
+OUT = os.path.abspath(os.environ.get("TBF_OUT", VERIF))    # evidence/ and replay/ go here (self-tests redirect it)
 TBFSCAN = os.path.join(BUILD, "tbfscan")
 RESOURCE_DIR = "/usr/lib/llvm-14/lib/clang/14.0.6"
 
@@ -257,6 +258,8 @@ def walk(n, into_lambdas=True, into_omp=True):
         if x.get("k") == "LambdaExpr":
             if not into_lambdas and x is not n:
                 continue
+            for cap in x.get("captures", []):
+                ch += cap.get("c", [])
             ch += x.get("params", [])
         ch += x.get("c", [])
         stack.extend(reversed([c for c in ch if c is not None]))
@@ -277,6 +280,8 @@ def link_parents(root):
         if "clauses" in x:
             ch += x["clauses"]
         if x.get("k") == "LambdaExpr":
+            for cap in x.get("captures", []):
+                ch += cap.get("c", [])
             ch += x.get("params", [])
         ch += x.get("c", [])
         for c in ch:
@@ -405,11 +410,11 @@ def finish(res, tier, level, t0, technique):
         (listed if k else new).append(v)
     for v in listed:
         print("KNOWN-FINDING: property=%s %s %s:%s %s [%s] %s" % (res.pid, v["rule"], v["file"], v["line"], v["function"], v["key"], v["msg"]))
-    os.makedirs(os.path.join(VERIF, "evidence"), exist_ok=True)
+    os.makedirs(os.path.join(OUT, "evidence"), exist_ok=True)
     replay = None
     if new:
-        os.makedirs(os.path.join(VERIF, "replay"), exist_ok=True)
-        replay = os.path.join(VERIF, "replay", "%s.json" % res.pid)
+        os.makedirs(os.path.join(OUT, "replay"), exist_ok=True)
+        replay = os.path.join(OUT, "replay", "%s.json" % res.pid)
         with open(replay, "w") as f:
             json.dump({"property": res.pid, "tier": tier, "repo": REPO, "violations": new,
                        "how_to_replay": "./check %s --tier %s  (deterministic: re-analyses the current tree and reports the same constructs)" % (res.pid, tier)}, f, indent=1)
@@ -441,7 +446,7 @@ def finish(res, tier, level, t0, technique):
     ev = {"property_id": res.pid, "tier": tier, "seed": int(os.environ.get("VERIF_SEED", "0") or 0), "level": level,
           "coverage": cov, "assumptions": res.assumptions, "wall_s": round(time.time() - t0, 2),
           "violations": len(new)}
-    with open(os.path.join(VERIF, "evidence", "%s.json" % res.pid), "w") as f:
+    with open(os.path.join(OUT, "evidence", "%s.json" % res.pid), "w") as f:
         json.dump(ev, f, indent=1)
     if new:
         print("VIOLATION property=%s replay=%s" % (res.pid, replay))
